@@ -20,10 +20,56 @@ static void judge(const corp_item *it, int k1, int k2) {
         hx_emit_violation("C18", kind, kind, msg, (const char *) rb.p);
     }
 }
+/* ---- configuration phase: create, set up, register hooks and body parsers, COPY, create a parser from the copy, feed one exchange, destroy everything ----
+ * every allocation of the sequence fails in turn (ASan judges: a double free or use after free aborts the worker and is reported with the description below) */
+static char cfgdesc[300];
+static const char *cfg_describe(void) { return cfgdesc; }
+static int cfg_cb(htp_tx_t *tx) { (void) tx; return HTP_OK; }
+static int cfg_cbd(htp_tx_data_t *d) { (void) d; return HTP_OK; }
+static int cfg_log(htp_log_t *l) { (void) l; return HTP_OK; }
+static long cfg_sequence(int variant) {
+    hx_in_lib = 1;
+    htp_cfg_t *cfg = htp_config_create(), *copy = NULL;
+    if (cfg) {
+        htp_config_set_server_personality(cfg, HTP_SERVER_IDS);
+        htp_config_register_request_line(cfg, cfg_cb);
+        if (variant >= 1) { htp_config_register_request_headers(cfg, cfg_cb); htp_config_register_request_headers(cfg, cfg_cb); htp_config_register_response_body_data(cfg, cfg_cbd); }
+        if (variant >= 2) { htp_config_register_urlencoded_parser(cfg); htp_config_register_multipart_parser(cfg); htp_config_register_transaction_complete(cfg, cfg_cb); htp_config_register_log(cfg, cfg_log); }
+        copy = htp_config_copy(cfg);
+        htp_connp_t *c = htp_connp_create(copy ? copy : cfg);
+        if (c) {
+            static const char q[] = "POST /a?b=c HTTP/1.1\r\nHost: h\r\nContent-Type: application/x-www-form-urlencoded\r\nContent-Length: 3\r\n\r\nd=e", r[] = "HTTP/1.1 200 OK\r\nContent-Length: 2\r\n\r\nok";
+            htp_connp_open(c, "1.1.1.1", 1, "2.2.2.2", 80, NULL);
+            htp_connp_req_data(c, NULL, q, sizeof q - 1); htp_connp_res_data(c, NULL, r, sizeof r - 1);
+            htp_connp_close(c, NULL); htp_connp_destroy_all(c);
+        }
+        if (copy) htp_config_destroy(copy);
+        htp_config_destroy(cfg);
+    }
+    hx_in_lib = 0;
+    return hx_alloc_seq;
+}
+static void cfg_phase(void) {
+    hx_inflight_describe = cfg_describe;
+    for (int variant = 0; variant < 3; variant++) {
+        if (variant % hx_shard_n != hx_shard_i % 3 || hx_shard_i >= 3) continue;
+        snprintf(cfgdesc, sizeof cfgdesc, "# engine=faultmc\nconfiguration phase, variant %d, no fault\n", variant);
+        hx_fault_arm(0); if (hx_inflight_tick()) continue;
+        long N = cfg_sequence(variant); n_exec++;
+        for (int k = 1; k <= (int) N; k++) {
+            snprintf(cfgdesc, sizeof cfgdesc, "# engine=faultmc\nconfiguration phase (create, set up, register hooks%s, htp_config_copy, parser on the copy, one exchange, destroy all), variant %d, allocation %d of %ld failing\n", variant >= 2 ? " and body parsers" : "", variant, k, N);
+            if (hx_inflight_tick()) continue;
+            hx_fault_arm(k); cfg_sequence(variant); n_exec++; if (hx_fault_fired_get()) n_faults_fired++;
+        }
+        hx_fault_arm(0);
+    }
+    hx_inflight_describe = NULL;
+}
 static int worker(int argc, char **argv) {
     int thorough = !strcmp(hx_tier, "thorough");
     int pairs_items = atoi(hx_arg(argc, argv, "--pairs", thorough ? "1000" : "40"));
     int maxitems = atoi(hx_arg(argc, argv, "--max-items", "100000"));
+    if (atoi(hx_arg(argc, argv, "--cfg-phase", "1")) && !atoi(hx_arg(argc, argv, "--only-rechunk", "0"))) cfg_phase();
     corpus_load(1);
     hx_cfgspec cfgs[2]; hx_cfgspec_default(&cfgs[0]); cfgs[0].req_decomp = 1;
     hx_cfgspec_default(&cfgs[1]); cfgs[1].personality = HTP_SERVER_MINIMAL; cfgs[1].auto_destroy = 1; cfgs[1].parsers = 0;
